@@ -38,6 +38,9 @@ pub enum Op {
     AddClone,
     AddReader { r: u16 },
     AddRegionDb { r: u16 },
+    /// a plain read-only File of the data file (open_read_only_file / Region::open_db_read_only_file), kept until
+    /// the end of the history: it is neither a handle nor a region nor a reader, so it must not keep the directory locked
+    KeepRoFile,
     SpawnBg,
     /// a background task that fails at once, collected with sync_bg_tasks() right away
     FailingBgThenSync,
@@ -105,6 +108,7 @@ fn op_strategy() -> BoxedStrategy<Op> {
         2 => Just(Op::AddClone),
         3 => any::<u16>().prop_map(|r| Op::AddReader { r }),
         2 => any::<u16>().prop_map(|r| Op::AddRegionDb { r }),
+        1 => Just(Op::KeepRoFile),
         2 => Just(Op::SpawnBg),
         1 => Just(Op::FailingBgThenSync),
         1 => Just(Op::SyncBg),
@@ -282,6 +286,7 @@ struct St {
     model: BTreeMap<String, Vec<u8>>,
     dirty: bool,
     bg_pending: bool,
+    ro_files: Vec<std::fs::File>,
     /// background tasks of the instance that have started and not yet returned
     bg_running: std::sync::Arc<std::sync::atomic::AtomicUsize>,
     wc: usize,
@@ -356,6 +361,7 @@ fn run_case(case: &Case, obs: &mut Obs) -> Result<(), String> {
         model: BTreeMap::new(),
         dirty: false,
         bg_pending: false,
+        ro_files: vec![],
         bg_running: Default::default(),
         wc: 0,
     };
@@ -424,6 +430,20 @@ fn run_case(case: &Case, obs: &mut Obs) -> Result<(), String> {
                 let Some((_, reg)) = st.pick_region(*r) else { continue };
                 st.holders.push(Holder::RegionDb(reg.db()));
                 obs.label("holder:region-db");
+            }
+            Op::KeepRoFile => {
+                if !open_now {
+                    continue;
+                }
+                let f = match st.regions.values().next() {
+                    Some(r) if st.ro_files.len() % 2 == 1 => r.open_db_read_only_file(),
+                    _ => match st.any_db() {
+                        Some(db) => db.open_read_only_file(),
+                        None => continue,
+                    },
+                };
+                st.ro_files.push(f.map_err(|e| format!("{ctx}: {e}"))?);
+                obs.label("plain-read-only-file-kept");
             }
             Op::SpawnBg => {
                 if let Some(db) = st.any_db() {
@@ -649,7 +669,7 @@ impl Prop for P {
     }
 
     fn rule() -> String {
-        "proptest histories over one directory: create/append/flush, holders of the first instance added and dropped in any order (Database clones, Readers, region.db() references, a sleeping run_bg task), and further opens of the same directory via Database::open / open_with_min_len(0, half, equal, +1, +page, 2x+12345 of the current size) from another thread or from a re-exec'd child process. While >=1 holder lives the attempt must return the lock error (an attempt that blocks is decided by releasing the holders: success afterwards = violation), data and regions files must be byte-identical (read(2), not mmap) and the holder must still read its model; once the last holder is gone the open must succeed (optionally first by a foreign process) and read back exactly the flushed model (names and bytes, both directions). Non-trivial: refused attempt with min_len above the current size, or while the instance is kept alive only by Readers/region.db() references, or with a background task pending.".into()
+        "proptest histories over one directory: create/append/flush, holders of the first instance added and dropped in any order (Database clones, Readers, region.db() references, a sleeping run_bg task; plain read-only Files of the data file are opened and kept to the end - they are no holders), and further opens of the same directory via Database::open / open_with_min_len(0, half, equal, +1, +page, 2x+12345 of the current size) from another thread or from a re-exec'd child process. While >=1 holder lives the attempt must return the lock error (an attempt that blocks is decided by releasing the holders: success afterwards = violation), data and regions files must be byte-identical (read(2), not mmap) and the holder must still read its model; once the last holder is gone the open must succeed (optionally first by a foreign process) and read back exactly the flushed model (names and bytes, both directions). Non-trivial: refused attempt with min_len above the current size, or while the instance is kept alive only by Readers/region.db() references, or with a background task pending.".into()
     }
 
     fn mandatory_labels() -> &'static [&'static str] {
